@@ -4535,9 +4535,18 @@ load_message (DBusMessageLoader *loader,
         {
           _dbus_verbose ("Failed to validate message body code %d\n", validity);
 
-          loader->corrupted = TRUE;
-          loader->corruption_reason = validity;
-          
+          /* Validating a variant's signature allocates memory: running
+           * out of it says nothing about the message */
+          if (validity == DBUS_VALIDITY_UNKNOWN_OOM_ERROR)
+            {
+              oom = TRUE;
+            }
+          else
+            {
+              loader->corrupted = TRUE;
+              loader->corruption_reason = validity;
+            }
+
           goto failed;
         }
     }
